@@ -1,6 +1,48 @@
 (* C09 — daemon/timer life-cycle.  Only statements here; proofs in Proofs/Daemons.v, model in Model/Daemons.v.
    ∀ = unbounded: every label history of the per-object LTS (events with any view/time/oracle, task ends, killer steps),
-   every handler configuration (backoff/timeout/polling in Z or None), every age of the stop flag, every oracle. *)
+   every handler configuration (backoff/timeout/polling in Z or None), every age of the stop flag, every oracle.
+
+   CLAUSE AUDIT (statement and quantifier of C09 in properties.jsonl)
+   ----------------------------------------------------------------------------------------------------------------------
+   clause                                              | stated by                                              | status
+   ----------------------------------------------------+--------------------------------------------------------+---------
+   1 at most one instance per (object, handler)        | C09_single_instance, C09_runner_never_keyerror         | full
+   2 started when the object appears / starts matching | C09_spawn_on_match; must-not: C09_matching_untouched   | full
+   3 asked to stop: flag first, cancel after backoff,  |                                                        |
+     abandon after timeout ...                         |                                                        |
+     - stages not early, in order (multi-cycle)        | C09_staged_flag_first/_cancel/_abandon/_delays         | full
+     - stages DO happen when the cycles continue       | C09_staged_completion (<= 3 cycles, any reaction),     | full
+                                                       | C09_staged_without_timeout (documented polling),       |
+                                                       | C09_staged_progress, C09_stop_on_forced_removal_partial|
+     - (a) when marked for deletion                    | C09_stop_on_deletion_mark                              | full
+     - (b) when the object disappears                  | C09_stop_on_disappear_refuted/_partial +               | F7
+                                                       |   C09_orphan_never_stopped                             |
+                                                       | C09_stop_on_forced_removal_refuted/_partial +          | F702
+                                                       |   C09_stranded_never_touched, C09_orphan_is_stranded   |
+     - (c) when it stops matching                      | C09_stop_on_mismatch (paused or not)                   | full
+     - (d) when the operator pauses                    | events: C09_stop_on_pause; killer: C09_killer_pass_    | full for a
+     - (e) when the operator exits                     |   reaches_all (+ _needs_known), C09_linear_staged,     | pass; the
+                                                       |   C09_linear_stop_bounded                              | 1 s period
+                                                       |                                                        | and "a pass
+                                                       |                                                        | happens" are
+                                                       |                                                        | monitored
+                                                       |                                                        | (not-stopped-
+                                                       |                                                        | on-pause/exit,
+                                                       |                                                        | killer-skipped)
+   4 own exit is not restarted                         | C09_own_exit_is_remembered, C09_no_restart_after_..    | full
+   5 stopping instance not respawned before it ended   | C09_no_respawn_before_end                              | full
+   6 stopping never stalls ...                         | timers: C09_stop_terminates (+ hypothetical            | full for the
+                                                       |   C09_unguarded_loop_would_spin, F1 fixed);            | loops modelled
+                                                       | daemons: C09_daemon_stop_terminates;                   |
+                                                       | killer: C09_linear_stop_bounded; stop_daemons: total   |
+     ... or crashes the operator                       | C09_runner_never_keyerror (the only raise in the       | partial: other
+                                                       |   modelled code); killer iteration (F901 fixed) and    | exceptions are
+                                                       |   everything else: monitors crash / killer-crash       | monitored only
+   quantifier: histories, #handlers, reactions,        | label lists / oracles / Z parameters, all universally  | full; sync
+     backoff/timeout, timer configs, timings           |   quantified; timer configs: forall tcfg               | (threaded)
+                                                       |                                                        | daemons: not
+                                                       |                                                        | covered
+   ---------------------------------------------------------------------------------------------------------------------- *)
 From Coq Require Import ZArith List Bool.
 From KV Require Import Model.Daemons Proofs.Daemons.
 Import ListNotations.
@@ -26,10 +68,11 @@ Theorem C09_stop_on_deletion_mark : forall spoll s del v now orc s' id i,
 Proof. exact stop_on_deletion_mark. Qed.
 Print Assumptions C09_stop_on_deletion_mark.
 
+(* (paused or not: the reason set by match_daemons survives pause_daemons) *)
 Theorem C09_stop_on_mismatch : forall spoll s v now orc s' id i,
-  step spoll s (LProc false v now orc) = Some s' -> v_deleting v = false -> v_paused v = false ->
+  step spoll s (LProc false v now orc) = Some s' -> v_deleting v = false ->
   ~ In id (keys (v_matching v)) -> lookup id (o_running s') = Some i -> is_set (i_sp i) (Some RMismatch) = true.
-Proof. exact stop_on_mismatch. Qed.
+Proof. exact stop_on_mismatch_any. Qed.
 Print Assumptions C09_stop_on_mismatch.
 
 Theorem C09_stop_on_pause : forall spoll s v now orc s' id i,
@@ -197,3 +240,50 @@ Proof.
   exact (conj (stage_cancels_when_due h spoll now why sp ex Hw) (stage_abandons_when_due h spoll now why sp ex Hw)).
 Qed.
 Print Assumptions C09_stop_on_forced_removal_partial.
+
+(* ---- deepening round *)
+
+(* the staged stop DOES happen when the cycles continue: with a cancellation timeout configured, following the delays the
+   operator returns settles every daemon (ended, or cancelled and finally given up) within three cycles, whatever it does *)
+Theorem C09_staged_completion : forall h spoll now why sp ex1 ex2 ex3 t, wf_sp sp -> eff_timeout h = Some t ->
+  let r1 := stage h spoll now why sp false ex1 in
+  settled r1 \/ exists d1, 0 < d1 /\ r_delays r1 = [d1] /\
+    let r2 := stage h spoll (now + d1) why (r_sp r1) false ex2 in
+    settled r2 \/ exists d2, 0 < d2 /\ r_delays r2 = [d2] /\ settled (stage h spoll (now + d1 + d2) why (r_sp r2) false ex3).
+Proof. exact stage_completion. Qed.
+Print Assumptions C09_staged_completion.
+
+(* without a cancellation timeout: never cancelled (hence never abandoned), re-checked at the backoff and then every polling period *)
+Theorem C09_staged_without_timeout : forall h spoll now why sp ex, eff_timeout h = None ->
+  let r := stage h spoll now why sp false ex in
+  r_cancel r = false /\ (r_done r = false -> match eff_backoff h with
+                                              | Some b => if age_of now sp <? b then r_delays r = [b - age_of now sp] else r_delays r = [eff_polling h spoll]
+                                              | None => r_delays r = [eff_polling h spoll] end).
+Proof. exact stage_without_timeout_polls. Qed.
+Print Assumptions C09_staged_without_timeout.
+
+(* pause / exit: in every reachable state, one pass of the killer over a memory it can still see is a behaviour of the LTS and
+   leaves EVERY daemon of that memory with the reason on its flag; it neither adds nor removes instances, nor touches
+   forever_stopped.  A forgotten memory gets no pass at all. *)
+Theorem C09_killer_pass_reaches_all : forall spoll tr s why now, run spoll init tr = Some s -> o_known s = true -> kreason why = true ->
+  exists s', run spoll s (kpass_labels why now s) = Some s' /\
+    (forall id i, lookup id (o_running s') = Some i -> is_set (i_sp i) (Some why) = true) /\
+    (forall id, lookup id (o_running s') = None <-> lookup id (o_running s) = None) /\ o_forever s' = o_forever s.
+Proof. exact killer_pass_reaches_all. Qed.
+Print Assumptions C09_killer_pass_reaches_all.
+
+Theorem C09_killer_pass_needs_known : forall spoll s why now, o_known s = false -> run spoll s (kpass_labels why now s) = None.
+Proof. exact killer_pass_needs_known. Qed.
+Print Assumptions C09_killer_pass_needs_known.
+
+(* what an event must NOT do: a running instance whose handler still matches is left exactly as it is *)
+Theorem C09_matching_untouched : forall spoll s v now orc s' id h i,
+  step spoll s (LProc false v now orc) = Some s' -> v_deleting v = false -> v_paused v = false ->
+  In (id, h) (v_matching v) -> ~ In id (o_forever s) -> lookup id (o_running s) = Some i -> lookup id (o_running s') = Some i.
+Proof. exact matching_untouched. Qed.
+Print Assumptions C09_matching_untouched.
+
+(* _daemon's loop once the stopper is set: leaves after at most one further, non-suspending sleep(), from every program point *)
+Theorem C09_daemon_stop_terminates : forall p fuel, (3 <= fuel)%nat -> exists n, daemon_tail fuel p = Some n /\ (n <= 1)%nat.
+Proof. exact daemon_tail_terminates. Qed.
+Print Assumptions C09_daemon_stop_terminates.
